@@ -86,6 +86,12 @@ def render_project(m: L.Model) -> T.Dict[str, str]:
         'subprojects/sub/meson.build': '\n'.join(s) + '\n',
         'subprojects/sub/meson.options': ''.join(sp.decl() + '\n' for sp in sub.values()),
     }
+    # a project that declares nothing may also have NO option file at all (m.absent: the file is deleted, not emptied)
+    absent = getattr(m, 'absent', set())
+    if '' in absent and not top:
+        out['meson.options'] = None     # type: ignore
+    if 'sub' in absent and not sub:
+        out['subprojects/sub/meson.options'] = None     # type: ignore
     if 'late' in m.files:
         lt = ["project('late', meson_version: '>=1.1'%s)" % _do(m.dopts.get('late', {}))]
         for n in list(m.files['late']) + bi:
@@ -229,6 +235,8 @@ class Gen:
             for n in names:
                 del f[n]
                 m.dopts[sub].pop(n, None)
+            if not f and r.random() < 0.5:
+                m.absent.add(sub)      # type: ignore  # the file is deleted instead of emptied
             return {'edit': 'remove-all', 'sub': sub, 'name': ','.join(names) or '-'}
         for _ in range(10):
             kind = r.choice(kinds)
@@ -389,10 +397,24 @@ def run_history(job: T.Tuple[int, int, str, T.Optional[T.List[dict]]]) -> dict:
     src, b = os.path.join(base, 'src'), os.path.join(base, 'b')
     res: T.Dict[str, T.Any] = {'seed': seed, 'steps': [], 'problems': [], 'paths': {}, 'checked_values': 0, 'checked_msgs': 0,
                                'kinds': {}}
-    runner.write_tree(src, render_project(m))
+    m.absent = set()        # type: ignore  # (sub)projects whose option file does not exist while they declare nothing
+    if replay_steps is None and not with_late and r2.random() < 0.25:
+        # the subproject has no option file to begin with (it may get one later through an 'add' edit)
+        m.files['sub'].clear()
+        m.dopts['sub'].pop('dt', None)
+        m.absent.add('sub')     # type: ignore
 
     def write_files() -> None:
-        runner.write_tree(src, render_project(m))
+        files = render_project(m)
+        for rel in [k for k, v in files.items() if v is None]:
+            files.pop(rel)
+            try:
+                os.unlink(os.path.join(src, rel))
+            except OSError:
+                pass
+        runner.write_tree(src, files)
+
+    write_files()
 
     def note(kind: str) -> None:
         res['kinds'][kind] = res['kinds'].get(kind, 0) + 1
@@ -564,6 +586,14 @@ def run_history(job: T.Tuple[int, int, str, T.Optional[T.List[dict]]]) -> dict:
                 problem(f'{step["step"]}/coredata-unreadable', detail=got['__load_error__'])
                 break
             bad = False
+            have = got.get('__project_options__')
+            if isinstance(have, list):
+                res['checked_values'] += 1
+                want = sorted(L.key(subn, n) for subn in m.st.applied for n in m.st.applied[subn])
+                extra = sorted(set(have) - set(want))
+                if extra:
+                    problem(f'{step["step"]}/project-option-nobody-declared', extra=extra[:6])
+                    break
             for k in gone:
                 res['checked_values'] += 1
                 if not (isinstance(got.get(k), dict) and 'error' in got[k]):
